@@ -36,7 +36,7 @@ N_PROGRAMS = {"quick": 500, "thorough": 12000}
 N_VARIANTS = {"quick": 6, "thorough": 14}
 N_SYM = {"quick": 160, "thorough": 3200}
 N_SYM_VARIANTS = {"quick": 4, "thorough": 8}
-OPTS = {"no_loopy": True}
+OPTS: dict[str, Any] = {}
 
 
 _Timeout = common.Timeout
@@ -135,7 +135,9 @@ def make_post(asg: dict[str, list[list[Any]]], applied: dict[str, int]) -> Any:
         if not tags or not isinstance(ary, pt.Array):
             return ary
         if isinstance(ary, pt.NamedArray):
-            return ary      # results of containers carry no tags of their own
+            # results of containers (loopy call results) carry user / strategy / axis tags;
+            # naming tags on them cannot be honoured (refused for Named)
+            tags = [t for t in tags if t[0] not in ("named", "prefix")]
         for kind, arg in tags:
             try:
                 if kind == "stored":
